@@ -79,7 +79,7 @@ M_SELECT = {"absent-label-matcher", "same-label-twice", "no-tags", "tsid-preimag
 M_LABELS = {"value-has-comma", "json-escaped-tag-value", "tsid-preimage-collision", "tag-value-over-64k"}
 M_RELEVANT = {
     "series-missing": M_SELECT,
-    "series-extra": {"absent-label-matcher", "same-label-twice", "tsid-preimage-collision", "regex-on-empty-value", "tag-value-over-64k"},
+    "series-extra": {"absent-label-matcher", "matcher-on-missing-key", "same-label-twice", "tsid-preimage-collision", "regex-on-empty-value", "tag-value-over-64k"},
     "series-merged": {"name-regex-same-tagset", "tsid-preimage-collision"},
     "series-duplicated": set(),
     "labels-changed": M_LABELS,
@@ -88,14 +88,23 @@ M_RELEVANT = {
     "value-bits-changed": {"negative-zero", "tsid-preimage-collision", "name-regex-same-tagset"},
     "query-error": set(),
 }
-M_AGG = M_SELECT | M_LABELS | {"name-regex-same-tagset", "regex-on-empty-value", "empty-group-key"}
+M_AGG = M_SELECT | M_LABELS | {"name-regex-same-tagset", "regex-on-empty-value", "empty-group-key", "matcher-on-missing-key"}
+# classes of REPAIRED deviations (known_findings.txt `fixed:` lines).  They never excuse anything: a disagreement that a
+# still recorded class of the query can explain is reported under that class alone; one that only repaired classes could
+# explain is reported as e2em/in-class/<repaired class>, which no `known:` line lists any more — i.e. as a VIOLATION
+# under the name the defect had.
+M_FIXED = {"tsid-preimage-collision", "no-tags", "negative-zero", "json-escaped-tag-value",
+           "same-label-twice", "regex-on-empty-value", "tag-value-over-64k", "matcher-on-missing-key"}
 
 
 def m_sig(what, cls):
     """e2em/<what> (series-missing, value-bits-changed, agg/<fn>, …) for inputs outside every recorded deviation class that
     could explain <what>; else e2em/in-class/<class+class>: the witness class is the input class, what went wrong is in the message"""
     rel = M_AGG if what.startswith("agg") else M_RELEVANT.get(what, set())
-    c = "+".join(sorted(set(c for c in cls if c and c in rel)))
+    cs = set(c for c in cls if c and c in rel)
+    if cs - M_FIXED:
+        cs -= M_FIXED
+    c = "+".join(sorted(cs))
     if not c:
         return "e2em/" + what
     return "e2em/in-class/" + c
@@ -135,8 +144,9 @@ def compare_metrics(ia, mb, qi):
       * lat=unaligned   : some selected point is not on the start of its downsample bucket for this query range; the engine
                           reports bucket starts and merges points of one bucket, so only series and label sets are compared;
       * lat=inexact-sum : sum/avg over values that are not small integers: compared up to floating-point rounding;
-      * namere=1        : the selector matches __name__ by regex; the engine reports the name as "*" (the statements speak
-                          about tag keys/values); names are not compared, label sets are;
+      * namere=1        : the selector matches __name__ by regex: no latitude any more — every series is reported under
+                          its own metric name (before the repair the engine reported "*" and merged equal tag sets of different metrics:
+                          e2em/name-regex-selector-reports-star; under an aggregation the merge is still recorded, class name-regex-same-tagset);
       * aggregation results: PromQL drops the metric name, the engine keeps it (or "*"); names are not compared;
       * a result series without any point (e.g. count() over an empty selection) is the same as no series;
       * EMPTY label values are ordinary values for identity and grouping (what the unchanged engine does, and what the
@@ -155,9 +165,12 @@ def compare_metrics(ia, mb, qi):
     if ia.get("kind") != kind:
         return [("e2em/protocol/kind", "query %d: impl kind %s model kind %s" % (qi, ia.get("kind"), kind))]
     agg = kind == "magg"
-    strip_name = agg or mb.get("namere") == "1"
+    strip_name = agg
     exp, got = m_parse_series(mb.get("ser", "")), m_parse_series(ia.get("ser", ""))
     got = [g for g in got if g[2]]  # latitude: a result series without a single point carries no answer
+    if not agg and mb.get("namere") == "1" and any(g[0] == "2a" for g in got):
+        # (repaired) the engine used to report every series of a selector with a regex on __name__ under the name "*"
+        return [("e2em/name-regex-selector-reports-star", "query %d: a selector with a regex on __name__ reports series under the name \"*\" instead of their metric names (series of different metrics with equal tag sets are then merged into one)" % qi)]
 
     def keyed(lst):
         d = {}
